@@ -1,2 +1,6 @@
 import ZbossModel.Props.C11
-#print axioms Zboss.Host.C11_placeholder
+#print axioms Zboss.Host.C11_one_transmitter
+#print axioms Zboss.Host.C11_one_awaiting_ack
+#print axioms Zboss.Host.C11_ack_wait_inside_message
+#print axioms Zboss.Host.C11_task_steps_frame
+#print axioms Zboss.Host.C11_write_step
